@@ -15,6 +15,7 @@ import math
 from hypothesis import strategies as st
 
 from ..runner import Violation
+from ..fasta_guard_c16 import TableGuard, molecule_digest, digest_diff, CODE_TABLE_NAMES
 
 PROPERTY = "C16"
 RULE = ("compounds: Hypothesis draws a flat or one-level grouped item list over {H[1] (0..2 places), H, D, 0..5 other atoms "
@@ -28,7 +29,11 @@ RULE = ("compounds: Hypothesis draws a flat or one-level grouped item list over 
         "and D2O_sld(c, v, f) real is s for v in 0, 0.3, 1. molecules: every entry of the fasta tables (99) on a 4x4 (v,d) grid, "
         "plus generated Molecule(formula, cell_volume | natural density | tag) and Sequence objects: .sld/.Dsld = direct real SLD "
         "of the H/D form at the cell volume, .D2Omatch = 100*f (oracle and nsf.D2O_match), .D2Osld = oracle mixture and "
-        "nsf.D2O_sld real part, .mass/.Dmass. Non-trivial: >= 1 labile hydrogen and 0 < d < 1, or a compound containing D. "
+        "nsf.D2O_sld real part, .mass/.Dmass; a Sequence is also handed to nsf.D2O_sld as '<type>:codes'. Histories: inside the "
+        "molecules task (one process) a guard snapshots every fasta table molecule (object identities, formula structures, "
+        "densities, cell_volume, charge, mass, Dmass, sld, Dsld, D2Omatch) and compares after every generated case, the table "
+        "sweep runs at the start and at the end of the task, every generated object is built before and after its checks and "
+        "must report identical values, and every third case is asked again 7 cases later. Non-trivial: >= 1 labile hydrogen and 0 < d < 1, or a compound containing D. "
         "Distinct by (rendered compound, density, route, d, v, wavelength).")
 ASSUMPTIONS = [
     "atom masses, neutron scattering data and element densities served by the table are the specification (C06/C07); "
@@ -41,6 +46,8 @@ ASSUMPTIONS = [
     "|denominator| < 1e-7*S (solute line parallel to the solvent line, e.g. labile water at water density) are counted as "
     "inconclusive for the match clause only",
     "D2O_match with a vector wavelength is compared element-wise",
+    "after a modification of a table entry is reported the guard puts the snapshot back, so that the following cases of the "
+    "task are judged on intact tables; at most 2 modified entries are reported per task (bucket per table and key)",
 ]
 
 _STATE = {}
@@ -641,10 +648,9 @@ def check_table_molecule(ctx, case):
 
 def task_tables(ctx):
     E = env()
-    n = 0
-    for tname, key, m in table_molecules(E):
-        n += 1
-        ctx.check(check_table_molecule, {"kind": "table-molecule", "table": tname, "key": key})
+    guard = TableGuard(E["fasta"], "c16")
+    n = sweep_tables(ctx, E)
+    guard.verify(ctx, [{"kind": "table-sweep"}], "during the sweep of the fasta tables")
     ctx.extra["table_molecules"] = n
 
 
@@ -669,16 +675,12 @@ def molecule_strategy(E):
 SEQ_ALPHABET = {"aa": "ACDEFGHIKLMNPQRSTVWYBJZX-", "dna": "ACGTURYKMSWBDHVNX-", "rna": "ACGTURYKMSWBDHVNX-"}
 
 
-def check_generated_molecule(ctx, case):
-    E = env()
+def construct(E, case):
+    """Build the Molecule/Sequence of a generated case -> (object, pairs or None, V or None, label, classes)."""
     fa, pt = E["fasta"], E["pt"]
-    grid = [tuple(x) for x in case["grid"]]
     if case["kind"] == "sequence":
         m = fa.Sequence("generated", case["seq"], type=case["type"])
-        pairs = [(a, float(n)) for a, n in m.labile_formula.atoms.items()]
-        molecule_checks(ctx, E, m, pairs, float(m.cell_volume), "Sequence(%r, type=%r)" % (case["seq"], case["type"]), case, grid,
-                        ["class:Sequence:" + case["type"]])
-        return
+        return m, None, None, "Sequence(%r, type=%r)" % (case["seq"], case["type"]), ["class:Sequence:" + case["type"]]
     items, group = case["items"], case["group"]
     text = render(items, group, case.get("alt", False))
     comp = composition(items, group)
@@ -711,12 +713,183 @@ def check_generated_molecule(ctx, case):
         arg = dict((a, n) for a, n in pairs)
     label = "Molecule(%r as %s, %s=%s, charge=%d)" % (arg_text, form, how, val, case["charge"])
     m = fa.Molecule("generated", arg, charge=case["charge"], **kw)
+    return m, pairs, V, label, ["class:Molecule:" + how, "form:" + form]
+
+
+def check_generated_molecule(ctx, case):
+    E = env()
+    grid = [tuple(x) for x in case["grid"]]
+    m, pairs, V, label, cls = construct(E, case)
+    if case["kind"] == "sequence":
+        pairs = [(a, float(n)) for a, n in m.labile_formula.atoms.items()]
+        V = float(m.cell_volume)
+        molecule_checks(ctx, E, m, pairs, V, label, case, grid, cls)
+        # the same chain written as a formula prefix, handed to nsf as a compound
+        text = "%s:%s" % (case["type"], case["seq"])
+        rho = 1e24 * mass_of(pairs) / E["NA"] / V if V > 0 else 0.0
+        S = scale_of(E, pairs, rho, {})[0] + water_scale(E, {})[0]
+        for v, d in grid:
+            got = E["nsf"].D2O_sld(text, v, d)[0]
+            bad = differs(E, got, m.D2Osld(v, d), S)
+            if bad:
+                raise Violation("c16:prefix:D2O_sld", "nsf.D2O_sld(%r, %r, %r)[0] is %s (D2Osld of the Sequence)" % (text, v, d, bad), case)
+        tab = getattr(E["fasta"], CODE_TABLE_NAMES[case["type"]])
+        for k in sorted(tab):
+            for f in ("labile_formula", "natural_formula"):
+                if getattr(m, f) is getattr(tab[k], f):
+                    raise Violation("c16:shares-table-formula", "%s.%s is the %s object of the table entry %r"
+                                    % (label, f, f, k), case)
+        return
     bad = differs(E, m.cell_volume, V, 0.0)
     if bad:
         raise Violation("c16:molecule:cell_volume", "%s.cell_volume is %s" % (label, bad), case)
     if m.charge != case["charge"]:
         raise Violation("c16:molecule:charge", "%s.charge is %r" % (label, m.charge), case)
-    molecule_checks(ctx, E, m, pairs, V, label, case, grid, ["class:Molecule:" + how, "form:" + form])
+    molecule_checks(ctx, E, m, pairs, V, label, case, grid, cls)
+
+
+# ----------------------------------------------------------------------
+# sequences of calls in one process: the shared tables stay as they are, the same question gets the same answer
+SWEEP_GRID = [[1.0, 0.7], [0.3, 0.25]]
+REPEAT_AFTER = 7          # a remembered case is asked again this many cases later
+
+
+class Session(object):
+    def __init__(self, E):
+        self.E = E
+        self.guard = TableGuard(E["fasta"], "c16")
+        self.recent = []          # the last cases, oldest first
+        self.remembered = []      # [age, case, digest, cases since]
+        self.n = 0
+
+
+def label_of(case):
+    if case.get("kind") == "sequence":
+        return "Sequence(%r, type=%r)" % (case["seq"], case["type"])
+    return "generated %s" % case.get("kind")
+
+
+def shrink_sequence(S, case, fails):
+    """Greedy deletion of codes from a sequence case while *fails(case)* stays true (tables are put back before each try)."""
+    if case.get("kind") != "sequence":
+        return case
+    best = dict(case, grid=[[1.0, 0.5]])
+    S.guard.restore()
+    if not fails(best):
+        return case
+    progress = True
+    while progress and len(best["seq"]) > 1:
+        progress = False
+        for k in range(len(best["seq"])):
+            trial = dict(best, seq=best["seq"][:k] + best["seq"][k + 1:])
+            S.guard.restore()
+            try:
+                ok = fails(trial)
+            except Exception:  # noqa
+                ok = False
+            if ok:
+                best, progress = trial, True
+                break
+    S.guard.restore()
+    return best
+
+
+def repeat_fails(E):
+    return lambda c: bool(digest_diff(molecule_digest(construct(E, c)[0]), molecule_digest(construct(E, c)[0])))
+
+
+def modifies_tables(E, S):
+    def f(c):
+        construct(E, c)
+        return bool(S.guard.diff())
+    return f
+
+
+def run_call(ctx, S, case):
+    """One generated case inside a session (the function Hypothesis drives)."""
+    E = S.E
+    kind = case.get("kind")
+    if kind == "table-sweep":
+        try:
+            sweep_tables(ctx, E, case.get("grid"))
+        finally:
+            S.guard.verify(ctx, [case], "during the sweep of the fasta tables")
+        return
+    if kind == "table-molecule":
+        try:
+            check_table_molecule(ctx, case)
+        finally:
+            S.guard.verify(ctx, [case], "while the table molecule was evaluated")
+        return
+    if kind == "compound":
+        try:
+            check_compound(ctx, case)
+        finally:
+            S.guard.verify(ctx, [case], "while the compound was evaluated")
+        return
+    S.n += 1
+    S.recent = (S.recent + [case])[-8:]
+    for r in S.remembered:
+        r[3].append(case)
+    try:
+        first = molecule_digest(construct(E, case)[0])
+        check_generated_molecule(ctx, case)
+        again = molecule_digest(construct(E, case)[0])
+        bad = digest_diff(first, again)
+        if bad:
+            ctx.count("repeat-differs")
+            if not ctx.skip_bucket("c16:repeat-differs"):
+                S.guard.verify(ctx, [case], "while %s was built and evaluated" % label_of(case))
+                small = shrink_sequence(S, case, repeat_fails(E))
+                bad = digest_diff(molecule_digest(construct(E, small)[0]), molecule_digest(construct(E, small)[0])) or bad
+                ctx.violation("c16:repeat-differs", "%s built twice in a row in one process reports different values: %s"
+                              % (label_of(small), bad), {"kind": "history", "calls": [small]})
+        # the same question some cases later
+        for r in list(S.remembered):
+            r[0] += 1
+            if r[0] >= REPEAT_AFTER:
+                S.remembered.remove(r)
+                later = molecule_digest(construct(E, r[1])[0])
+                ctx.count("repeated-later")
+                bad = digest_diff(r[2], later)
+                if bad:
+                    ctx.count("repeat-differs")
+                    ctx.violation("c16:repeat-differs", "%s reports different values %d cases later in the same process: %s"
+                                  % (label_of(r[1]), r[0], bad), {"kind": "history", "calls": [r[1]] + r[3][:-1]})
+        if S.n % 3 == 0 and len(S.remembered) < 4:
+            S.remembered.append([0, case, first, []])
+    finally:
+        S.guard.verify(ctx, [case], "while %s was built and evaluated" % label_of(case))
+
+
+def check_history(ctx, case):
+    """Replay of a saved sequence of calls on a fresh process; the first call is asked again at the end."""
+    E = env()
+    S = Session(E)
+    calls = case["calls"]
+    first = None
+    if calls and calls[0].get("kind") in ("sequence", "molecule"):
+        first = molecule_digest(construct(E, calls[0])[0])
+        S.guard.verify(ctx, calls[:1], "while %s was built" % label_of(calls[0]))
+    for c in calls:
+        run_call(ctx, S, c)
+    if first is not None:
+        bad = digest_diff(first, molecule_digest(construct(E, calls[0])[0]))
+        if bad:
+            ctx.violation("c16:repeat-differs", "%s reports different values after %d further calls: %s"
+                          % (label_of(calls[0]), len(calls), bad), case)
+        S.guard.verify(ctx, calls, "by the end of the history")
+
+
+def sweep_tables(ctx, E, grid=None):
+    n = 0
+    for tname, key, m in table_molecules(E):
+        n += 1
+        c = {"kind": "table-molecule", "table": tname, "key": key}
+        if grid:
+            c["grid"] = grid
+        ctx.check(check_table_molecule, c)
+    return n
 
 
 def task_compounds(ctx, n):
@@ -726,7 +899,14 @@ def task_compounds(ctx, n):
 
 def task_molecules(ctx, n):
     E = env()
-    ctx.search("molecules", molecule_strategy(E), check_generated_molecule, n)
+    S = Session(E)
+    # the table molecules at the start, after every generated case (guard), and again at the end
+    sweep_tables(ctx, E, SWEEP_GRID)
+    S.guard.verify(ctx, [{"kind": "table-sweep", "grid": SWEEP_GRID}], "during the sweep of the fasta tables")
+    ctx.search("molecules", molecule_strategy(E), lambda c, v: run_call(c, S, v), n)
+    S.guard.verify(ctx, S.recent, "by the end of the task")
+    sweep_tables(ctx, E, SWEEP_GRID)
+    ctx.extra["table_guard_checks"] = S.guard.checks
 
 
 def tasks(tier):
@@ -751,5 +931,9 @@ def replay(ctx, case):
         check_compound(ctx, case)
     elif k == "table-molecule":
         check_table_molecule(ctx, case)
+    elif k == "history":
+        check_history(ctx, case)
+    elif k == "table-sweep":
+        check_history(ctx, {"kind": "history", "calls": [case]})
     else:
         check_generated_molecule(ctx, case)
